@@ -714,13 +714,16 @@ def spec_infer(I, w, k, opts):
     # cube: for each variable: absent / positive / negative
     pos = [z3.Bool('cp%d' % i) for i in range(k)]
     neg = [z3.Bool('cn%d' % i) for i in range(k)]
-    for i in range(k):
-        w.constraints.append(z3.Not(z3.And(pos[i], neg[i])))
+    # a variable required both true and false gives the contradictory cube, i.e. the false leaf (the model of an
+    # unsatisfiable formula), which forces every variable vacuously
     tt = []
     for sg in all_assignments(k):
         tt.append(gand(*[gand(gor(gnot(pos[i]), sg[i]), gor(gnot(neg[i]), gnot(sg[i]))) for i in range(k)]))
     s, sel = any_symbol(w, 's' + opts.get('sfx', ''))
-    forced = gor(*[gand(sel[i], pos[i]) for i in range(k)])
+    forced = True
+    for j, sg in enumerate(all_assignments(k)):
+        vtrue = gor(*[gand(sel[i], sg[i]) for i in range(k)])
+        forced = gand(forced, gor(gnot(tt[j]), vtrue))
 
     def extra(rv):
         a, b = rv.alts[0][1]
@@ -877,8 +880,7 @@ def judge_op(case, ans):
     if op == 'infer':
         m = py_tt(case['tts'][0])
         v = case['ids'].index(int(case['extra'][0]))
-        sat = any(m)
-        forced = sat and all((not m[j]) or bool((j >> (k - 1 - v)) & 1) for j in range(1 << k))
+        forced = all((not m[j]) or bool((j >> (k - 1 - v)) & 1) for j in range(1 << k))
         got = d['pos'][1:] if d.get('pos') else []
         both = (got == ['true', 'true'])
         return (both != forced), 'infer returned %s, forced=%s' % (got, forced)
@@ -1030,4 +1032,54 @@ def unit_bdd_hash(k, opts):
             res['status'] = 'inconclusive'
     res.update(interp_summary(I))
     res['sample'] = dict(unit='<BDD as Hash>::hash on canonical diagrams k=%d' % k, obligation='A == B  =>  same write sequence (discriminants, symbol ids)')
+    return res
+
+
+def unit_symbol_hash(opts):
+    """NamedSymbol: Hash is consistent with Eq - two symbols that compare equal (by the crate's own PartialEq) feed the
+    hasher the same writes, whatever their names; needed by the unique table (a lookup must find an equal key)"""
+    I = load('lib')
+    if opts.get('mutate'):
+        apply_mir_mutation(I, opts['mutate'])
+    ida, idb = z3.BitVec('ida', 64), z3.BitVec('idb', 64)
+    na, nb = z3.String('na'), z3.String('nb')
+    a = mk_struct('NamedSymbol', [mk_rc(Str(na)), ida])
+    b = mk_struct('NamedSymbol', [mk_rc(Str(nb)), idb])
+    eqit = I.by_key.get(('NamedSymbol', 'PartialEq', 'eq'))
+    hit = I.by_key.get(('NamedSymbol', 'Hash', 'hash'))
+    if eqit is None or hit is None:
+        raise Unsupported('NamedSymbol PartialEq / Hash impl not found')
+    outs = I.call_item(eqit, [mk_sref(a), mk_sref(b)], {})
+    rets, pc, _ = outcome_split(outs)
+    iseq = False
+    for r in rets:
+        iseq = gor(iseq, gand(r.guard, r.value))
+
+    def run(v):
+        c = I.new_cell()
+        outs = I.call_item(hit, [mk_sref(v), MRef(c, ())], {c: Seq(())})
+        rs, p, _ = outcome_split(outs)
+        return [(r.guard, r.mem[c]) for r in rs], p
+    ra, pa = run(a)
+    rb, pb = run(b)
+    ve = Veq(lenient=True)
+    bad = False
+    for ga, sa in ra:
+        for gb, sb in rb:
+            bad = gor(bad, gand(ga, gb, gnot(ve.eq(sa, sb))))
+    res = dict(queries=[], method='<NamedSymbol as Hash>::hash')
+    cex = None
+    for name, neg in (('no panic', gor(pc, pa, pb)), ('symbols that compare equal hash equally (any names)', gand(iseq, bad))):
+        q = decide(name, [z3.Length(na) <= 3, z3.Length(nb) <= 3], neg, timeout_s=120, prefer='z3')
+        q['expect'] = 'unsat'
+        m = q.pop('model', None)
+        res['queries'].append(q)
+        if q['result'] == 'sat' and cex is None:
+            m = m or {}
+            cex = dict(obligation=name, case=dict(kind='symhash', id=m.get('ida', 0), names=[m.get('na', 'a') or 'a', m.get('nb', 'b') or 'b']))
+        elif q['result'] not in ('sat', 'unsat'):
+            res['status'] = 'inconclusive'
+    res.update(interp_summary(I))
+    res['cex'] = cex
+    res['sample'] = dict(unit='NamedSymbol Hash vs Eq', ids='unknown 64-bit', names='unknown strings', obligation='a == b  =>  same hasher write sequence')
     return res
